@@ -55,6 +55,7 @@ pub fn dump<'tcx>(tcx: TyCtxt<'tcx>) -> (J, J, J, J, J, J) {
           "kind": J::s(format!("{:?}", kind)),
           "vis": J::s(vis_str(tcx, tcx.visibility(did))),
           "reachable": J::Bool(eff.is_reachable(ldid)),
+          "exported": J::Bool(eff.is_exported(ldid)),
           "non_exhaustive": J::Bool(adt.is_variant_list_non_exhaustive()),
           "span": J::s(span_str(tcx, tcx.def_span(did))),
           "variants": J::Arr(vars),
@@ -66,9 +67,11 @@ pub fn dump<'tcx>(tcx: TyCtxt<'tcx>) -> (J, J, J, J, J, J) {
           if let Some(tc) = clause.as_trait_clause() {
             let sd = tc.def_id();
             let reach = sd.as_local().map(|l| eff.is_reachable(l));
+            let exported = sd.as_local().map(|l| eff.is_exported(l));
             supers.push(crate::jobj! {
               "path": J::s(plain(tcx, sd)),
               "reachable": match reach { Some(b) => J::Bool(b), None => J::Null },
+              "exported": match exported { Some(b) => J::Bool(b), None => J::Null },
             });
           }
         }
@@ -77,6 +80,7 @@ pub fn dump<'tcx>(tcx: TyCtxt<'tcx>) -> (J, J, J, J, J, J) {
           "path": J::s(plain(tcx, did)),
           "vis": J::s(vis_str(tcx, tcx.visibility(did))),
           "reachable": J::Bool(eff.is_reachable(ldid)),
+          "exported": J::Bool(eff.is_exported(ldid)),
           "supertraits": J::Arr(supers),
           "items": J::Arr(methods),
           "span": J::s(span_str(tcx, tcx.def_span(did))),
@@ -122,6 +126,7 @@ pub fn dump<'tcx>(tcx: TyCtxt<'tcx>) -> (J, J, J, J, J, J) {
           "name": J::s(tcx.item_name(did).to_string()),
           "vis": J::s(vis_str(tcx, tcx.visibility(did))),
           "reachable": J::Bool(eff.is_reachable(ldid)),
+          "exported": J::Bool(eff.is_exported(ldid)),
           "async": J::Bool(tcx.asyncness(did).is_async()),
           "container": J::s(container),
           "has_body": J::Bool(has_body),
